@@ -5,6 +5,7 @@ import logging
 from idpyoidc.exception import ImproperlyConfigured
 from idpyoidc.message import oauth2
 from idpyoidc.server.endpoint import Endpoint
+from idpyoidc.server.exception import ToOld
 from idpyoidc.server.token.exception import UnknownToken
 from idpyoidc.server.token.exception import WrongTokenClass
 from idpyoidc.util import importer
@@ -43,8 +44,15 @@ class TokenRevocation(Endpoint):
 
     def get_client_id_from_token(self, endpoint_context, token, request=None):
         _info = endpoint_context.session_manager.get_session_info_by_token(
-            token, handler_key="access_token"
+            token, handler_key="access_token", grant=True
         )
+        # Only an access token that was handed out, exactly as it was handed out, and that is
+        # still valid can speak for a client.
+        _token = _info["grant"].get_token(token)
+        if _token is None or _token.token_class != "access_token":
+            raise KeyError("Unknown token")
+        if not _token.is_active():
+            raise ToOld("Token is not valid anymore")
         return _info["client_id"]
 
     def process_request(self, request=None, **kwargs):
